@@ -1313,6 +1313,9 @@ def to_big_endian(array, inplace=False, keep_dtype=False):
         # assume all are same byte order: we only need to find one with
         # little endian
         for fname in array.dtype.names:
+            if array.dtype[fname].base.byteorder == "|":
+                # no byte order, e.g. strings and single bytes
+                continue
             if not is_big_endian(array[fname]):
                 doswap = True
                 break
@@ -1360,6 +1363,9 @@ def to_little_endian(array, inplace=False, keep_dtype=False):
         # assume all are same byte order: we only need to find one with
         # little endian
         for fname in array.dtype.names:
+            if array.dtype[fname].base.byteorder == "|":
+                # no byte order, e.g. strings and single bytes
+                continue
             if not is_little_endian(array[fname]):
                 doswap = True
                 break
